@@ -195,7 +195,7 @@ def c05(tier):
             S.add("close 1")
     # requests larger than the 8 KiB staging buffers with more data following (every encoding, all four caller types)
     bigs = [8193, 10000, 12289, 16385] if tier == "quick" else [4097, 8191, 8193, 10000, 12289, 16383, 16385, 20001]
-    for fmt, ch in _fmts(exe, tier, (1, 2) if tier == "quick" else (1, 2, 3)):
+    for fmt, ch in _fmts(exe, tier, (1, 2, 3)):
         if scen.major(fmt) == scen.SD2:
             continue
         B = scen.block_hint(fmt, ch, RATE)
@@ -209,6 +209,12 @@ def c05(tier):
         for T in "sifd":
             sz = rng.choice(bigs)
             S.add("seek 1 0 0", "read 1 %s i %d" % (T, (sz // ch) * ch), "read 1 %s f 3" % T, "seek 1 0 1")
+        # the last staging chunk of a call starts exactly at the end of the data: seek to F - k*2048 items, ask for more than is left
+        F = -(-N // B) * B if B > 1 else N
+        for T in "sifd":
+            for st in ((2048, 4096, 8192) if tier == "quick" else (1024, 2048, 4096, 8192, 16384)):
+                if st % ch == 0 and F - st // ch >= 0:
+                    S.add("seek 1 %d 0" % (F - st // ch), "read 1 %s f %d" % (T, st // ch + 301), "read 1 %s f 2" % T)
         S.add("close 1")
     mcs = [gen_core.mc_rw("R", 2, tag=tier[0]), gen_core.mc_rw("W", 0, tag=tier[0], maxwrites=1 if tier == "quick" else 2)]
     return core_check("C05", tier, mcs, S.lines, "DESIGN.md section 6 C05",
@@ -254,6 +260,22 @@ def c08(tier):
             for pre in (0, 20):
                 for rep in range(1 if tier == "quick" else 4):
                     gen_core.rdwr_random(S, fmt, ch, RATE, rng, steps=50 if tier == "quick" else 150, pre=pre, route="fd")
+    for fmt in allf:
+        for ch in (1, 2):
+            T = gen_core.type_for(fmt)
+            lc = scen.lossless_class(fmt, T)
+            cls, par = lc if lc else ("noise", 0)
+            for pre, cut, after in ((7, 3, None), (8, 5, None), (9, 9, None), (7, 2, "read"), (11, 4, "seek"), (6, 1, "write")):
+                S.scn(fmt="0x%x" % fmt, ch=ch, T=T, kind="truncreopen", pre=pre, cut=cut)
+                S.add("file 1 new", "open 0 fd w 1 %d %d %d" % (fmt, ch, RATE), "write 0 %s f %d gen %s %d %d" % (T, pre, cls, rng.randint(1, 10 ** 6), par), "close 0",
+                      "open 0 fd rw 1 %d %d %d" % (fmt, ch, RATE), "trunc 0 %d" % cut)
+                if after == "read":
+                    S.add("seek 0 0 16", "read 0 %s f 2" % T)
+                elif after == "seek":
+                    S.add("seek 0 1 0")
+                elif after == "write":
+                    S.add("seek 0 0 32", "write 0 %s f 1 gen %s %d %d" % (T, cls, rng.randint(1, 10 ** 6), par))
+                S.add("close 0", "open 1 fd r 1 %d %d %d" % (fmt if scen.major(fmt) == scen.RAW else 0, ch, RATE), "read 1 %s f %d" % (T, pre + 3), "close 1")
     depth = 3 if tier == "quick" else 4
     fam = [0x10002, 0x20004, 0x30006, 0x40001, 0x180003] if tier == "quick" else [0x10002, 0x10005, 0x10006, 0x20004, 0x30007, 0x40001, 0x180003, 0xb0002, 0x220002, 0x50002, 0x70003, 0xa0006, 0xc0007, 0xd0004]
     nh = 0
@@ -326,6 +348,11 @@ def c07(tier):
         for N in Ns:
             gen_env.c07_scenarios(S, fmt, ch, RATE, N, rng, nparts=8 if tier == "quick" else 14,
                                   Ts=None if tier == "quick" else list(dict.fromkeys([gen_core.type_for(fmt), "s", "f"])))
+    # float / double encodings through every caller type with calls larger than the staging buffers (PEAK bookkeeping per chunk)
+    for fmt, ch in _fmts(exe, tier, (1, 2) if tier == "quick" else (1, 2, 3)):
+        if scen.sub(fmt) in (6, 7) and scen.major(fmt) != scen.SD2:
+            gen_env.c07_scenarios(S, fmt, ch, RATE, 3000 if tier == "quick" else 9000, rng, nparts=4, Ts=["s", "i", "f", "d"])
+            gen_env.c07_scenarios(S, fmt, ch, RATE, 2500 if tier == "quick" else 7000, rng, nparts=4, Ts=["s", "i"], late_max=True)
     mcs = [gen_core.mc_rw("W", 0, tag=tier[0], maxwrites=2)]
     return core_check("C07", tier, mcs, S.lines, "DESIGN.md section 6 C07",
                       "every writable format x channels: the same sample sequence written under several partitions (one call, 1+rest, rest+1, all ones, random odd pieces incl. > staging buffer), item and frame variants mixed, SFC_UPDATE_HEADER_NOW interleaved; the whole script executed twice in separate processes; byte identity decided by TraceCore (SameBytesOK within a run, CanonOK across processes), clock pinned",
@@ -412,7 +439,7 @@ def c16(tier):
     od = os.path.join(vlib.ROOT, "out", "C16", tier)
     os.makedirs(od, exist_ok=True)
     seeds = gen_c03.seed_files(exe, fmts, RATE, od)
-    gen_c03.scenarios(S, seeds, rng, 40 if tier == "quick" else 600, routes=("vio", "fd", "path"), ncalls=4)
+    gen_c03.scenarios(S, seeds, rng, 40 if tier == "quick" else 600, routes=("vio", "fd", "path"), ncalls=4, systematic=True)
     mcs = [gen_core.mc_rw("R", 2, tag=tier[0])]
     return core_check("C16", tier, mcs, S.lines, "DESIGN.md section 6 C16",
                       "metadata-rich files mutated at header fields (failing at many parse depths after allocations); heap (ASan allocator statistics minus the driver's own blocks), descriptor table and private TMPDIR compared before the first and after the last call of every scenario (EndOK), and around every failing open (OpenFailedOK): valid files truncated at every cut point (failures at each parse depth) on vio/fd/path routes, handles closed without I/O, handles with failed calls",
@@ -595,7 +622,7 @@ def c03(tier):
     seeds = gen_c03.seed_files(exe, fmts, RATE, od)
     S = scen.Script()
     per = 110 if tier == "quick" else 1200
-    gen_c03.scenarios(S, seeds, rng, per, routes=("vio", "vio", "fd", "pipe") if tier == "thorough" else ("vio", "vio", "vio", "fd", "pipe"), ncalls=10 if tier == "quick" else 16)
+    gen_c03.scenarios(S, seeds, rng, per, routes=("vio", "vio", "fd", "pipe") if tier == "thorough" else ("vio", "vio", "vio", "fd", "pipe"), ncalls=10 if tier == "quick" else 16, systematic=(tier == "thorough"))
     mcs = [gen_core.mc_rw("R", 2, tag=tier[0])]
     return core_check("C03", tier, mcs, S.lines, "DESIGN.md section 6 C03",
                       "valid files of every writable format (with strings and a custom chunk) mutated: hostile values substituted into 1/2/4/8 byte header fields in both byte orders, truncation at header offsets, bit flips, duplicated/deleted/moved header slices, random bytes behind the magic, pure garbage; %d seeds x %d mutants, routes vio/fd/pipe; after a successful open a random sequence of reads (4 types, items/frames/raw), seeks (every whence), string/info/peak/CALC queries, chunk iteration, close; TraceCore hostile class: NULL+error+message or sane SF_INFO, counts/positions/guard bands, every call returns (watchdog), ASan, ledger" % (len(seeds), per),
